@@ -688,6 +688,10 @@ example : run 2 ⟨0, 1, 0, 1, 0, 1⟩ [] (build 2 (.seq .sequence [.leaf (.set 
     [(5, [none, none])] = some [(5, [none, some (.leaf (.int 1))])] := rfl
 -- hypothesis of `run_values_independent`: a state with a consumer and a run-time mutator is linear
 example : (build 2 (.seq .sequence [.leaf (.set 1 [] (.const (.int 1))), .leaf .ucfs, .leaf (.mut 0 [] (.int 5))])).linear = true := rfl
+-- hypothesis of `split_transparent_branch`: a bare element branch; of `redelivery_idempotent`: a history below `c`
+example : (Tree.leaf .data).hasGet = false := rfl
+example : Hist 2 [Val.empty 2] [some (.leaf (.int 1)), none] :=
+  ⟨by intro h hh; simp only [List.mem_singleton] at hh; subst hh; exact ⟨empty_leL 2 _, rfl⟩, rfl⟩
 -- hypotheses of `skip_sound`: `{} ⊑ {a: 1}`, and the Split that empties both
 example : leL (Val.empty 2) [some (.leaf (.int 1)), none] := by simp [leL, leO, Val.empty, List.replicate]
 -- hypothesis of `delivered_wf` / `exported_wf`
